@@ -238,6 +238,15 @@ def check_history(pid, sc, res):
                     if not ((tq0 > 0 and D > 0) or (tq0 < 0 and D < 0)):
                         out.append(W('bad-release', f'instant {k}: motion resumes with duty cycle in force {D!r} while the motor net torque at instant {k - 1} was {tq0!r}', sc, instant=k))
                         return out
+                    # ... the motor's net torque AT STANDSTILL, evaluated independently of what was recorded: the characteristic at speed 0
+                    # and the duty cycle of that instant, minus the recorded load torque on the motor
+                    T0, _ = motor_law(m, 0.0, rows[k - 1]['pwm'])
+                    if T0 is not None:
+                        ind = T0 - rows[k - 1]['ltq'][0]
+                        if abs(ind) > 1e-6 * max(scale_tq, m['Tmax']) and not ((ind > 0 and D > 0) or (ind < 0 and D < 0)):
+                            out.append(W('bad-release', f'instant {k}: motion resumes with duty cycle in force {D!r} while the motor net torque at standstill at instant {k - 1} '
+                                                        f'(characteristic at speed 0 and duty cycle {rows[k - 1]["pwm"]!r}, minus the load torque {rows[k - 1]["ltq"][0]!r}) was {ind!r}', sc, instant=k))
+                            return out
     return out
 
 
